@@ -99,7 +99,9 @@ def alt_layouts(M):
     M = np.asarray(M)
     big = np.full((2 * M.shape[0] + 1, 2 * M.shape[1] + 1), 0.123, dtype=M.dtype)
     big[1::2, 1::2] = M
-    return {'fortran': np.asfortranarray(M), 'transposed-view': np.ascontiguousarray(M.T).T, 'strided': big[1::2, 1::2]}
+    ro = M.copy()
+    ro.setflags(write=False)
+    return {'fortran': np.asfortranarray(M), 'transposed-view': np.ascontiguousarray(M.T).T, 'strided': big[1::2, 1::2], 'read-only': ro}
 
 
 def reused_container(form, decoy, trajs, dtypes, first_use):
